@@ -1,6 +1,7 @@
 import Driver.Util
 import Driver.Codec
 import Driver.Srv
+import Driver.Cli
 /-
 Line-protocol driver: one operation per input line, one model answer per output line.
 Unknown or unparsable operations answer `bad-op` (never a default).
@@ -15,9 +16,12 @@ def dispatch (st : DState) (line : String) : DState × String :=
     match codecCmd cmd a with
     | some s => (st, s)
     | none =>
-      match srvCmd st cmd a with
-      | some r => r
-      | none => (st, "bad-op")
+      match cliCmd cmd a with
+      | some s => (st, s)
+      | none =>
+        match srvCmd st cmd a with
+        | some r => r
+        | none => (st, "bad-op")
 
 partial def loop (h : IO.FS.Stream) (out : IO.FS.Stream) (st : DState) : IO Unit := do
   let line ← h.getLine
